@@ -421,6 +421,7 @@ ReadResult BinaryFileReader::internal_read_file(TopologyKernel &out)
     if (!reached_eof_chunk) {
         error_msg_ = "No EOF chunk found, file truncated?";
         state_ = ReadState::ErrorEndNotReached;
+        return ReadResult::InvalidFile;
     }
     if (file_header_.n_verts != out.n_vertices()
             || file_header_.n_edges != out.n_edges()
